@@ -28,7 +28,7 @@ FaultKinds == SqlFaults \cup {"PythonError"}
 
 ---------------------------------------------------------------------------
 (* Part 1: the discipline of one connection.                               *)
-(* event = [e : open|exec|pyerr|commit|rollback|close, k, sql, fault]      *)
+(* event = [e : open|exec|script|pyerr|commit|rollback|close, k, sql, ...]  *)
 (* K = number of statements of the fault-free call (known from its log).   *)
 DInit == [conn |-> "none", k |-> 0, fault |-> "", commits |-> 0, rollbacks |-> 0, bad |-> ""]
 
@@ -57,6 +57,9 @@ DReject(s, e, K) ==
          ELSE IF WeakensDurability(e) THEN "durability_assumption: the rollback journal is taken out of the file system (journal_mode memory/off)"
          ELSE ""
     [] e.e = "pyerr" -> ""
+    \* cursor.executescript first COMMITs whatever is pending and then runs its statements in autocommit mode:
+    \* nothing of it belongs to the transaction of the call
+    [] e.e = "script" -> "executescript inside the call (implicit COMMIT, its statements commit one by one)"
     [] e.e = "commit" ->
          IF s.conn # "open" THEN "commit without an open connection"
          ELSE IF s.fault # "" THEN "commit although a statement failed"
